@@ -787,7 +787,9 @@ func (fv *FV) appendBuiltin(e *Env, x *ast.CallExpr) Value {
 		} else {
 			fv.note("append with spread of non-scalar elements: contents abstracted")
 		}
-		return Value{K: kSlice, T: r, Off: intLit(0), Len: n, Cap: c, Type: t}
+		// Go: appending no elements to a nil slice yields nil (append([]byte(nil), empty...) == nil)
+		rT := ite(and(eq(s.T, tNull), eq(n, intLit(0))), tNull, r)
+		return Value{K: kSlice, T: rT, Off: intLit(0), Len: n, Cap: c, Type: t}
 	}
 	r := fv.allocRef(e, "app")
 	n := add(s.Len, intLit(int64(len(vals))))
